@@ -24,6 +24,9 @@ def make_models():
     from .plug_parallel import ParallelModels  # C13: queues, threads/processes (hooks only fire on its own types/names)
 
     m.plugins.insert(0, ParallelModels())
+    from .plug_serial import SerialModels  # C20: __dict__ fields, Synchronized values (hooks gated on its own sort / on a `__dict__` schema field)
+
+    m.plugins.insert(0, SerialModels())
     try:
         from .npmodel import NumpyModel
 
